@@ -24,19 +24,21 @@ PIPELINES = [[], ["everyk"], ["dtype"], ["everyk", "dtype"], ["dtype", "everyk"]
 
 
 def _table(tier):
-    """run index -> (T, pipeline).  quick: all five pipelines for T <= 8, the bare every-k filter (the index arithmetic itself)
-    up to T = 16; thorough: all five pipelines for every T <= 40.  (One configuration costs ~0.16 s of tracing + XLA compilation.)"""
+    """run index -> (T, pipeline).  quick: all five pipelines for T <= 3, the single-module pipelines (incl. the bare every-k filter, i.e.
+    the index arithmetic itself) up to T = 6; thorough: all five pipelines for every T <= 40.  One configuration costs ~0.16 CPU-s
+    (tracing + XLA compilation of the real compress / decompress; nothing is shared between configurations because k / start / index maps
+    are static fields), so the complete table up to T = 16 (3264 configurations, ~9 CPU-minutes) does not fit into a 120 s quick budget."""
     if tier == "quick":
-        return [(T, p) for T in range(1, 9) for p in PIPELINES] + [(T, ["everyk"]) for T in range(9, 17)]
+        return [(T, p) for T in range(1, 4) for p in PIPELINES] + [(T, p) for T in range(4, 7) for p in ([], ["everyk"], ["dtype"])]
     return [(T, p) for T in range(1, 41) for p in PIPELINES]
 
 
 RUNS = {"quick": len(_table("quick")), "thorough": len(_table("thorough"))}
 RUN_TIMEOUT_S = 900
-SHRINK_BUDGET = {"quick": 200, "thorough": 400}
+SHRINK_BUDGET = {"quick": 120, "thorough": 400}
 K_MAX = 8
 RULE = (
-    "run index -> (T, pipeline): pipelines [], [everyk], [dtype], [everyk,dtype], [dtype,everyk] x T = 1..8 plus [everyk] alone for T = 9..16 (quick) / all five x T = 1..40 (thorough); inside a run ALL k = 1..8 and "
+    "run index -> (T, pipeline): pipelines [], [everyk], [dtype], [everyk,dtype], [dtype,everyk] x T = 1..3 plus the single-module pipelines for T = 4..6 (quick) / all five x T = 1..40 (thorough); inside a run ALL k = 1..8 and "
     "ALL start = 0..T-1 are enumerated (complete inner space); value histories are seeded random arrays (1-2 named entries, float32/float64/complex64/complex128), "
     "dtype conversions only widening (f32->f64, c64->c128, f32->c64, f64->c128, identity). Valid read schedules: decompress is a pure function of (state, t) - the real "
     "reverse pass reads in descending t - so descending sweep, seeded random order and a restarted descending sweep are all valid and all used; a second write pass with a "
@@ -294,6 +296,8 @@ def execute(spec):
                 stats["writes"] += T
                 stats["reads"] += len(reads)
                 first_value = {}
+                if run == 0:
+                    bad_first = set()
                 for ri, t in enumerate(reads):
                     if t < s0:
                         continue
@@ -307,7 +311,9 @@ def execute(spec):
                         if saved:
                             stats["probe_saved_reads"] = stats.get("probe_saved_reads", 0) + 1
                             exact = np.array_equal(got, hist[nm][t])
-                            if not exact:
+                            if not exact and run == 0:
+                                bad_first.add((nm, t))
+                            if not exact and (run == 0 or (nm, t) not in bad_first):
                                 err = float(np.max(np.abs(got.astype(want.dtype) - want))) / scale[nm]
                                 V("saved_step_mismatch" if run == 0 else "second_run_saved_step_mismatch", k=k, start=start, t=t, key=nm, read=kinds[ri], rel_err=err, run=run + 1,
                                   stale=bool(run == 1 and np.array_equal(got, hist_a[nm][t])))
@@ -318,9 +324,12 @@ def execute(spec):
                             if not np.isfinite(err):
                                 err = 1e300
                             resid["interpolation"] = max(resid.get("interpolation", 0.0), err)
-                            if err > 32 * eps:
+                            if err > 32 * eps and run == 0:
+                                bad_first.add((nm, t))
+                            if err > 32 * eps and (run == 0 or (nm, t) not in bad_first):
                                 sv = saved_steps(T, k, start)
-                                V("interpolation_mismatch" if run == 0 else "second_run_interpolation_mismatch", k=k, start=start, t=t, key=nm, read=kinds[ri], rel_err=err, tolerance=32 * eps, run=run + 1,
+                                base_mon = "interpolated_value_not_finite" if err >= 1e300 else "interpolation_mismatch"
+                                V(base_mon if run == 0 else "second_run_" + base_mon, k=k, start=start, t=t, key=nm, read=kinds[ri], rel_err=err, tolerance=32 * eps, run=run + 1,
                                   enclosing=[max(x for x in sv if x < t), min(x for x in sv if x > t)])
                         # the same t read twice (different read orders) must give the same value
                         kk = (nm, t)
